@@ -146,10 +146,21 @@ def blockWrites (H : Hist) (pfx : Bool) (view : Db) (items' : List (Nat × Nat))
   ++ [(Key.trie h, some (Val.snap items')), (Key.root h, some (Val.rootv (H.hashOf items'))),
       (Key.mptLocal, some (Val.ptr h)), (Key.curBlock, some (Val.ptr h))]
 
+/-- one garbage-collection commit (tryRunGC, blockchain.go:1438-1472, for chains shorter than
+headerBatchCount: stateroot.Module.GC + removeOldTransfers): a SeekGC applied DIRECTLY to the backend,
+below the write cache. State-trie nodes that only old states (height ≤ tgt) use are dropped, transfer
+logs are cut in some way `g`. -/
+def gcSel (tgt : Nat) (g : Nat → Option Val → Option Val) (db : Db) : Db := fun k =>
+  match k with
+  | Key.trie i => if i ≤ tgt then none else db k
+  | Key.xlog a => g a (db k)
+  | _ => db k
+
 inductive Op where
   | headers (upTo : Nat)     -- AddHeaders of the canonical headers up to this height
   | block                    -- AddBlock of the next canonical block
   | flush                    -- one persist() of the write cache
+  | gc (tgt : Nat) (g : Nat → Option Val → Option Val)  -- one GC commit with target height tgt
 
 /-- Blockchain.init on a database without a version (blockchain.go:575-612): version, genesis header
 pointer, genesis block — all into the write cache. -/
@@ -173,6 +184,12 @@ def step (H : Hist) (B : Nat) (n : Node) : Op → Node × Option Batch
   | .flush =>
     if n.cache.isEmpty then (n, none)
     else ({ n with db := applyWrites n.cache n.db, cache := [] }, some (ofWrites n.cache))
+  | .gc tgt g =>
+    -- tgtBlock = persistedHeight - MaxTraceableBlocks (rounded down), so it is below the persisted height
+    match n.db Key.curBlock with
+    | some (Val.ptr ph) =>
+      if tgt < ph then ({ n with db := gcSel tgt g n.db }, some [W.trans (gcSel tgt g)]) else (n, none)
+    | _ => (n, none)
 
 def runFrom (H : Hist) (B : Nat) : Node → List Op → Node × List Batch
   | n, [] => (n, [])
